@@ -543,6 +543,7 @@ func (c *Ctx) callContract(pi *PkgInfo, fo *types.Func, ct *Contract, recv *Val,
 	}
 	cf := c.calleeFrame(pi, fo, ct, recv, cargs)
 	key := pi.Name + "." + ct.Name
+	c.E.Called[key] = true
 	c.callOrd[key]++
 	ord := c.callOrd[key]
 	if x != nil {
